@@ -1,5 +1,6 @@
 """C17 - myosin quantification is a normalised, linear window statistic of the image."""
 import math
+import os
 
 import numpy as np
 from hypothesis import strategies as st
@@ -43,6 +44,7 @@ def params(draw, tier):
         p["rescale_split"] = draw(st.sampled_from([1.0, 2.0, 0.37]))
         # anisotropic placement: own factor and own offset per axis
         p["rescale_y"] = draw(st.sampled_from([None, None, 1.0, 1.5, 0.6]))
+        p["via_file"] = draw(st.sampled_from([False, False, True]))    # read_myosin(frame, path-of-a-TIFF, ...)
         p["offset_xy"] = [draw(st.integers(0, 6)) + draw(st.sampled_from([0.0, 0.25, 0.5])),
                           draw(st.integers(0, 6)) + draw(st.sampled_from([0.0, 0.25, 0.75]))]
     else:
@@ -83,6 +85,7 @@ def chain_big_edge(beid, pts, vid0):
 
 def build_edges(p):
     """Returns (list of BigEdge, rescale, offset)."""
+    build_edges.frame = None
     L = p["layers"]
     W, H = p["W"], p["H"]
     m = L + 3
@@ -106,6 +109,7 @@ def build_edges(p):
             v.y = (v.y - ys.min()) * s / pre_y
         frame = make_frame(R)
         edges = list(frame.internal_big_edges)
+        build_edges.frame = frame
         return edges, [pre, pre_y], [float(m) + off[0], float(m) + off[1]]
     rng = PRNG(p["pseed"])
     edges = []
@@ -187,7 +191,20 @@ def check_case(p, ctx):
     if p.get("omit_placement") and rescale == [1, 1] and offset == [0, 0]:
         kw = {}
         ctx.count("placement-arguments-left-at-defaults")
-    got = call(fm.get_intensities, edges, img, p["integrate"], p["normalize"], p["layers"], **kw)
+    if p.get("via_file") and build_edges.frame is not None and not p["repeat"] and p["normalize"] == "average":
+        # the documented entry point: the frame's internal interfaces, image read from a TIFF file
+        import tempfile
+        import shutil
+        d = tempfile.mkdtemp(prefix="c17_")
+        try:
+            fn = os.path.join(d, "m.tif")
+            img.save(fn)
+            got = call(fm.read_myosin, build_edges.frame, fn, p["integrate"], layers=p["layers"], **kw)
+        finally:
+            shutil.rmtree(d, ignore_errors=True)
+        ctx.count("through-read_myosin(file)")
+    else:
+        got = call(fm.get_intensities, edges, img, p["integrate"], p["normalize"], p["layers"], **kw)
     if sorted(got) != list(range(len(edges))):
         return ctx.violation("result-keys", p, observed=sorted(got)[:10], expected=f"0..{len(edges) - 1}")
     raw = [ref_intensity(arr, be, p["layers"], p["integrate"], rescale, offset) for be in edges]
